@@ -239,11 +239,64 @@ def key_columns(ctx, gm: GroupModel, rule: str) -> None:
                 okd = d in (col, ("attr", col, "_underlying"))
             if not okd:
                 problems.append(f"key column is `{gm.sh(data, 60)}`, expected the key column unchanged (list(col))")
-        want = ("bool", "or", (("attr", col, "_name"), const("key")))
-        if o.name_base != want or o.uniq is None:
-            problems.append(f"key column is named `{gm.sh(o.name, 60)}`, expected uniquify(col._name or 'key')")
-    ctx.ob(rule, f, "key-columns", not problems, f"{gm.which}: key columns first, one per key, named uniquify(name or 'key')",
+        # the stored name, 'key' only for an UNNAMED column: evaluated for the three kinds of stored name (None, '', a word)
+        N = ("attr", col, "_name")
+        got = {case: _name_value(o.name_base, N, case) for case in (None, "", "w")}
+        if o.uniq is None or got[None] != "key" or got["w"] != "w" or got[""] not in ("", "key"):
+            problems.append(f"key column is named `{gm.sh(o.name, 60)}`, expected uniquify(<stored name>, or 'key' for an unnamed column)")
+        elif got[""] == "key":
+            problems.append(f"key column is named `{gm.sh(o.name_base, 60)}`: a column whose stored name is '' comes out renamed to 'key' "
+                            f"(a falsy test where `is None` is meant)")
+        if gm.which != "aggregate" and getattr(ctx, "prop", "") == "C13":
+            from ..symx import kw as _kw
+            dt = _kw(o.ev.term, "dtype") if o.ev.term[0] == "call" else None
+            vec = o.vec if o.vec is not None and o.vec[0] == "call" else None
+            dt = dt if dt is not None else (_kw(vec, "dtype") if vec is not None else None)
+            if dt != ("attr", col, "_dtype"):
+                problems.append("the key column is rebuilt without its dtype (re-inferred from the same elements: <int?> without a None left "
+                                "comes out <int>, an all-None typed key <object?>): 'reproduces the partition key columns unchanged'")
+    ctx.ob(rule, f, "key-columns", not problems, f"{gm.which}: key columns first, one per key, named uniquify(name, 'key' if unnamed)"
+           + (", dtype kept" if gm.which != "aggregate" and getattr(ctx, "prop", "") == "C13" else ""),
            node, message=f"{gm.which}: " + "; ".join(problems))
+
+
+_UNKNOWN = object()
+
+
+def _name_value(t, N, case):
+    """value of the name expression t when the stored name N is `case` (None, '' or a non-empty word); _UNKNOWN outside the fragment"""
+    if t is None:
+        return _UNKNOWN
+    if t == N:
+        return case
+    k = t[0]
+    if k == "const":
+        return t[2]
+    if k == "bool":
+        vals = [_name_value(x, N, case) for x in t[2]]
+        if any(v is _UNKNOWN for v in vals):
+            return _UNKNOWN
+        for v in vals[:-1]:
+            if (t[1] == "or" and v) or (t[1] == "and" and not v):
+                return v
+        return vals[-1]
+    if k == "un" and t[1] == "Not":
+        v = _name_value(t[2], N, case)
+        return _UNKNOWN if v is _UNKNOWN else (not v)
+    if k == "cmp" and t[1] in ("Is", "IsNot", "Eq", "NotEq"):
+        a, b = _name_value(t[2], N, case), _name_value(t[3], N, case)
+        if a is _UNKNOWN or b is _UNKNOWN:
+            return _UNKNOWN
+        if t[1] in ("Is", "IsNot"):
+            same = (a is b) or (isinstance(a, str) and isinstance(b, str) and a == b)
+            return same if t[1] == "Is" else not same
+        return (a == b) if t[1] == "Eq" else (a != b)
+    if k == "ifexp":
+        c = _name_value(t[1], N, case)
+        if c is _UNKNOWN:
+            return _UNKNOWN
+        return _name_value(t[2] if c else t[3], N, case)
+    return _UNKNOWN
 
 
 def key_length_guards(ctx, gm: GroupModel, rule: str) -> None:
